@@ -249,6 +249,10 @@ func c15Rules(c *core.Ctx, k *core.Case) {
 		c.Fail(k, "rules-marshal-error", fmt.Sprintf("MarshalBinary of a well-formed rule list failed: %v (reference bytes %s)", err, hx(want)))
 		return
 	}
+	if _, owned := ownedTwice(func() []byte { b, _ := lib.MarshalBinary(); return b }); owned != "" {
+		c.Fail(k, "result-not-owned:QoSRules.MarshalBinary", owned)
+	}
+
 	if again, err2 := lib.MarshalBinary(); err2 != nil || !bytes.Equal(again, got) {
 		c.Fail(k, "rules-marshal-not-repeatable", fmt.Sprintf("a second MarshalBinary of the same list gives %s (err %v), the first gave %s", hx(again), err2, hx(got)))
 	}
@@ -363,6 +367,9 @@ func c15Descs(c *core.Ctx, k *core.Case) {
 	if err != nil || !bytes.Equal(got, want) {
 		c.Fail(k, "descs-layout", fmt.Sprintf("QoSFlowDescs.MarshalBinary = %s (%v), TS 24.501 9.11.4.12 layout %s", hx(got), err, hx(want)))
 		return
+	}
+	if _, owned := ownedTwice(func() []byte { b, _ := lib.MarshalBinary(); return b }); owned != "" {
+		c.Fail(k, "result-not-owned:QoSFlowDescs.MarshalBinary", owned)
 	}
 	if again, err2 := lib.MarshalBinary(); err2 != nil || !bytes.Equal(again, got) {
 		c.Fail(k, "descs-marshal-not-repeatable", fmt.Sprintf("a second MarshalBinary of the same list gives %s (err %v), the first gave %s", hx(again), err2, hx(got)))
